@@ -259,7 +259,7 @@ fn pre_answer(p: &Preprocessor, src: &str) -> String {
         let mut out = PreprocessorOutput::default();
         match p.parse(&mut ctx, &mut out, src) {
             Ok(_) => {
-                let mut labels: Vec<(String, usize)> = ctx.label_map.iter().map(|(k, v)| (k.clone(), v.map)).collect();
+                let mut labels: Vec<(String, usize)> = ctx.label_map.iter().map(|(k, v)| (k.clone(), v.map as usize)).collect();
                 labels.sort();
                 let mut undef: Vec<(usize, String)> = ctx.undefined_labels.into_iter().collect();
                 undef.sort();
@@ -283,7 +283,7 @@ fn pre_answer_reused(p: &Preprocessor, ctx: &mut PreprocessorContext, out: &mut 
     out.clear();
     let r = catch_unwind(AssertUnwindSafe(|| match p.parse(ctx, out, src) {
         Ok(_) => {
-            let mut labels: Vec<(String, usize)> = ctx.label_map.iter().map(|(k, v)| (k.clone(), v.map)).collect();
+            let mut labels: Vec<(String, usize)> = ctx.label_map.iter().map(|(k, v)| (k.clone(), v.map as usize)).collect();
             labels.sort();
             let mut undef: Vec<(usize, String)> = ctx.undefined_labels.iter().cloned().collect();
             undef.sort();
